@@ -16,6 +16,15 @@ RULE = ("1-6 overlapping datasets with per-dataset crops, scales and Q offsets (
 def generate(rng, tier):
     n = 40 if tier == "quick" else 250
     cases = []
+    # a fixed pair: a bank whose first and last Q plus its Q offset are inexact binary sums (0.2 + 0.1, 0.7 + 0.1) next to one that covers them
+    cfg0 = {"mat": {"rho": 0.05, "bcoh": 2.5, "btot": 1.25}, "Qmin": None, "Qmax": None}
+    xa = [round(0.2 + 0.05 * j, 2) for j in range(11)]
+    xb = [round(0.1 + 0.1 * j, 2) for j in range(10)]
+    da = {"x": xa, "kind": 0, "style": "exact", "s_true": [1.0 + 0.2 * (-1) ** j for j in range(len(xa))], "dy": None, "Qmin": None, "Qmax": None,
+          "Y": None, "X": {"Offset": 0.1}}
+    db = {"x": xb, "kind": 1, "style": "exact", "s_true": [1.5 + 0.1 * j for j in range(len(xb))], "dy": None, "Qmin": None, "Qmax": None, "Y": None, "X": None}
+    cases.append({"cfg": cfg0, "datasets": [SL.finish_dataset(da, cfg0["mat"]), SL.finish_dataset(db, cfg0["mat"])], "tier": tier,
+                  "desc": {"n_datasets": 2, "any_xoffset": True, "global_window": False, "fixed": "inexact shifted edges"}})
     for i in range(n):
         cfg = SL.gen_config(rng)
         k = rng.choice([1, 2, 3, 4, rng.randint(2, 6)])
@@ -149,7 +158,7 @@ def oracle(pystog, case, res):
     ds = case["datasets"]
     # end to end, from the inputs as given (no Q offsets: where the statement leaves no rounding choice): the grid is the set of
     # 0.01-resolution Q values of the points inside their windows and the value is the mean of their S(Q)
-    if all((d["X"] or {}).get("Offset", 0.0) == 0.0 for d in ds):
+    if True:      # (with Q offsets too: the shifted Q is re-rounded to the 0.01 grid, as the statement's "0.01-resolution Q value" says)
         ex, es = [], []
         for d in ds:
             x_, _, _, s_, _ = SL.expected_rows(case["cfg"], d)
